@@ -82,6 +82,7 @@ def main():
         from rules import core, engine, roles as roles_mod, props
         try:
             crates = core.extract(repo=dst, workspace=True)
+            props.normalise(crates)
         except SystemExit as e:
             print(sid, "EXTRACTION-FAILED", e)
             return 2
